@@ -98,9 +98,15 @@ func c11stageChild(args []string) int {
 		}
 		return nil
 	})
+	// SIGHUP from state Running fork-execs os.Args: make that a harmless program, never this harness again
+	os.Args = []string{"/bin/true"}
 	stm.Run()
+	// the main goroutine of cmd/mosn: WaitFinish(); Stop().  The gate stands for a pre-emption of that goroutine between
+	// the two calls (event M opens it), so that signals arriving in that window can be placed there.
+	gate := make(chan struct{})
 	go func() {
 		stm.WaitFinish()
+		<-gate
 		stm.Stop()
 	}()
 	wait := func(ch <-chan struct{}, what string) bool {
@@ -140,12 +146,15 @@ func c11stageChild(args []string) int {
 			}
 			steps = 0
 		case "H":
-			if stagemanager.GetState() == stagemanager.Running {
-				res.Err = "SIGHUP from Running would fork-exec: not sent"
-				return finish()
+			// from Running runReload fork-execs (/bin/true here) and waits up to 5 s for the new server: do not wait for it
+			hupDone := make(chan struct{})
+			go func() { stagemanager.NoticeStop(stagemanager.Reload); close(hupDone) }()
+			select {
+			case <-hupDone:
+			case <-time.After(300 * time.Millisecond):
 			}
-			stagemanager.NoticeStop(stagemanager.Reload)
 		case "M":
+			close(gate)
 			if !wait(app.closed, "Application.Close") {
 				return finish()
 			}
@@ -161,8 +170,10 @@ var stageEv = map[string]string{"T": "EvTerm", "D": "EvNewDial", "S": "EvHandler
 
 func c11Stage(run *Run, dir string) int {
 	scripts := []string{"T,M", "D,T,M", "D,S,T,M", "D,S,S,T,M", "D,S,S,S,T,M", "D,S,S,S,S,M", "D,F,T,M", "D,S,F,T,M", "D,S,S,F,T,M",
-		"D,F,D,T,M", "D,F,D,S,S,S,S,M", "D,H,S,S,S,S,M", "D,S,H,T,M", "D,H,T,M", "D,S,S,H,F,T,M"}
-	sh := run.NewShard(inlineGen(genStageTokens)+"From MV Require Import Model.Stage.\nFrom Coq Require Import List.\nImport ListNotations.\n", "stage_case", "stage_mismatches stop_always_drains")
+		"D,F,D,T,M", "D,F,D,S,S,S,S,M", "D,H,S,S,S,S,M", "D,S,H,T,M", "D,H,T,M", "D,S,S,H,F,T,M",
+		// a SIGHUP in the window between SIGTERM and the main goroutine's Stop() (the gate of the child process)
+		"T,H,M", "D,T,H,M", "D,S,S,T,H,M", "D,F,T,H,M"}
+	sh := run.NewShard(inlineGen(genStageTokens)+"From MV Require Import Model.Stage.\nFrom Coq Require Import List.\nImport ListNotations.\n", "stage_case", "stage_mismatches stage_flags")
 	for _, sc := range scripts {
 		var res stageResult
 		var lastErr string
@@ -199,6 +210,9 @@ func c11Stage(run *Run, dir string) int {
 				sig := "stage:close-before-drain:" + sc
 				if strings.Contains(sc, "D") && strings.Contains(sc, "T") && !strings.Contains(sc, "F") && !strings.Contains(sc, "H") {
 					sig = "stage:close-before-drain:sigterm-while-upgrading"
+				}
+				if strings.Contains(sc, "T,H") {
+					sig = "stage:close-before-drain:sighup-after-sigterm"
 				}
 				run.Fail(sig, fmt.Sprintf("interleaving %v: Application.Close was called before any drain (calls: %v)", evs, res.Trace), rep)
 				break
